@@ -23,6 +23,7 @@ import (
 	"net"
 	"os"
 	"sort"
+	"strings"
 	"sync"
 	"sync/atomic"
 	"syscall"
@@ -138,6 +139,55 @@ func genRate(r *hlib.SplitMix64) (string, string) {
 		return fmt.Sprintf("%d/%d.%ds", cnt, n(1, 9), n(1, 9)), ccls + "/N.Ns"
 	default:
 		return fmt.Sprintf("%d/%dm%ds", cnt, n(1, 3), n(1, 59)), ccls + "/NmNs"
+	}
+}
+
+// genFracRate: --rate strings whose window has a fractional count ("30/1.5s", "20/0.5s", "20/.5s", "7/2.5ms",
+// "3/1.25s", "12/0.25m", ...) next to the integer and unit-only forms of the same units.  Every fractional window is
+// a whole number of nanoseconds, so the duration the string denotes is exact.
+func genFracRate(r *hlib.SplitMix64) (string, string) {
+	n := func(lo, hi int) int { return lo + r.Intn(hi-lo+1) }
+	cnt := []int{1, 2, 3, 5, 7, 10, 12, 20, 30, 50, 100, 250, 1000}[r.Intn(13)]
+	if r.Intn(4) == 0 {
+		cnt = n(1, 4000)
+	}
+	unit := []string{"s", "s", "s", "ms", "ms", "us", "m"}[r.Intn(7)]
+	maxDigits := map[string]int{"s": 3, "ms": 3, "us": 2, "m": 2}[unit]
+	frac := func() string { // 1..maxDigits fractional digits, not all zero
+		d := n(1, maxDigits)
+		switch r.Intn(3) {
+		case 0:
+			return "5"
+		case 1:
+			return []string{"25", "75", "5", "1", "9"}[r.Intn(5)]
+		}
+		out := ""
+		for len(out) < d {
+			out += fmt.Sprint(r.Intn(10))
+		}
+		if strings.Trim(out, "0") == "" {
+			out = out[:len(out)-1] + fmt.Sprint(n(1, 9))
+		}
+		return out
+	}
+	whole := 9
+	if unit == "ms" || unit == "us" {
+		whole = 900
+	}
+	if unit == "m" {
+		whole = 3
+	}
+	switch r.Intn(10) {
+	case 0:
+		return fmt.Sprintf("%d/%s", cnt, unit), "unit-only:" + unit
+	case 1:
+		return fmt.Sprintf("%d/%d%s", cnt, n(1, whole), unit), "whole:" + unit
+	case 2, 3:
+		return fmt.Sprintf("%d/0.%s%s", cnt, frac(), unit), "0.x:" + unit
+	case 4, 5:
+		return fmt.Sprintf("%d/.%s%s", cnt, frac(), unit), ".x:" + unit
+	default:
+		return fmt.Sprintf("%d/%d.%s%s", cnt, n(1, whole), frac(), unit), "n.x:" + unit
 	}
 }
 
@@ -921,6 +971,7 @@ func main() {
 	npipe := flag.Int("pipe", 6, "number of sender/receiver runs")
 	neng := flag.Int("eng", 3, "number of application-engine wall-clock runs")
 	maxk := flag.Int("k", 120, "maximal number of Take calls per run")
+	nfrac := flag.Int("frac", 0, "number of fractional-window limiter runs (plus one engine run when -eng > 0)")
 	one := flag.String("one", "", "replay: kind,id  (regenerates exactly that case of this seed)")
 	capIface := flag.String("capture", "", "capture mode: interface to listen on")
 	capMax := flag.Int("max", 1000, "capture mode: stop after this many probes")
@@ -957,6 +1008,37 @@ func main() {
 			continue
 		}
 		w.Put(limCase(r, i, rateStr, cls, cnt, win, mode, k))
+	}
+	// fractional-window stage: the RAW string through the real parseRateLimit, then the real limiter on a fake
+	// clock, one caller, mostly back-to-back (the check judges the grants against the duration the STRING denotes)
+	for i := 0; i < *nfrac; i++ {
+		// (seeds i and i+1 of hlib.NewRand give streams shifted by one draw: hash the case number first)
+		r := hlib.NewRand(int64(hlib.NewRand(*seed*5000011+int64(i)).Uint64() >> 1))
+		rateStr, cls := genFracRate(r)
+		k := 60 + r.Intn(240)
+		if !want("frac", i) {
+			continue
+		}
+		cnt, win, err := command.VerifC15ParseRateLimit(rateStr)
+		if err != nil || cnt <= 0 {
+			w.Put(row{Kind: "frac", ID: i, Class: "frac/" + cls + "/rejected", RateStr: rateStr, Err: fmt.Sprint(err)})
+			continue
+		}
+		o := limCase(r, i, rateStr, "frac/"+cls, cnt, win, 0, k)
+		o.Kind = "frac"
+		w.Put(o)
+	}
+	// ... and one application-engine run on the real clock with such a string (parseRawOptions + newScanEngine)
+	if *nfrac > 0 && *neng > 0 && want("eng", 200) {
+		fr := []struct {
+			rate    string
+			workers int
+			nports  int
+		}{{"100/0.5s", 4, 4}, {"60/.25s", 8, 4}, {"300/1.5s", 3, 4}, {"500/2.5s", 16, 4}, {"8/2.5ms", 2, 8}, {"50/0.125s", 5, 4}}
+		e := fr[int(uint64(*seed)%uint64(len(fr)))]
+		o := engCase(200, e.rate, e.workers, e.nports)
+		o.Class = "eng/frac-window"
+		w.Put(o)
 	}
 	for i := 0; i < *nwrap; i++ {
 		r := hlib.NewRand(*seed*2000003 + int64(i))
